@@ -51,6 +51,9 @@ def derive_seed(base: int, *parts: Any) -> int:
     return int.from_bytes(h, "big") & 0x7FFFFFFF
 
 
+CURRENT: "Collector | None" = None
+
+
 class Collector:
     """Per-process record of what was explored and of what violated an oracle clause."""
 
@@ -58,6 +61,8 @@ class Collector:
     MAX_CASES_PER_SIG = 3
 
     def __init__(self) -> None:
+        global CURRENT
+        CURRENT = self  # the collector of this process (hyp_explore reports a thread that the library blocked to it)
         self.evaluations = 0
         self.nontrivial: set[int] = set()
         self.classes: Counter[str] = Counter()
@@ -228,7 +233,16 @@ def hyp_explore(strategy: Any, body: Callable[[Any], None], n: int, seed: int, *
     )
     @given(strategy)
     def _t(ex: Any) -> None:
-        body(ex)
+        from vf.env.vclock import WallHang
+
+        try:
+            body(ex)
+        except WallHang:
+            # the library blocked the thread (virtual time cannot advance past a real lock): a violation of every property that
+            # promises an answer - recorded, and this worker stops (each further case could cost the watchdog's delay again)
+            if CURRENT is not None:
+                CURRENT.violation({"clause": "thread-blocked", "how": "wall-clock watchdog"}, ex, "the library blocked the event loop's thread (no progress at one line and one virtual instant)")
+            raise StopExploration() from None
 
     try:
         _t()
